@@ -235,7 +235,7 @@ def run_check(prop, tier, master, n_runs=None, budget_s=None):
 
     t0 = time.time()
     kind = KIND[prop]
-    budget_s = budget_s or (170 if tier == "quick" else 2400)
+    budget_s = core.budget(tier, budget_s)
     # (a) run-reached ----------------------------------------------------------------------
     n_a = n_runs or (140 if tier == "quick" else 4000)
     algos = ["PaVeBa", "PaVeBaGP", "PaVeBaPartialGP", "VOGP", "EpsilonPAL", "VOGP_AD"]
